@@ -119,6 +119,11 @@ def _e(value: int | float | str) -> float:
         value = compute_hash(value[6:-2], OutputMode.NUMERIC)
         return value
 
+    if isinstance(value, str) and value.startswith('STR("'):
+        from .types import compute_string
+
+        return compute_string(value[5:-2], OutputMode.NUMERIC)
+
     if isinstance(value, str):
         raise CompilerError(f"Cannot evaluate non-hash string constant: {value}", None)
 
